@@ -267,6 +267,12 @@ def render(pkg: Pkg, src_prefix: str = "src") -> dict:
         files[f"{src_prefix}/{m.path}"] = render_mod(m)
     for k, v in pkg.extra_files.items():
         files[f"{src_prefix}/{k}"] = v
+    for k in getattr(pkg, "drop_files", ()):  # e.g. the __init__.py of a directory that is to be a plain directory
+        files.pop(f"{src_prefix}/{k}", None)
+    for k in getattr(pkg, "bom_files", ()):  # written with a UTF-8 byte order mark (legal Python source)
+        key = f"{src_prefix}/{k}"
+        if isinstance(files.get(key), str):
+            files[key] = {"hex": (b"\xef\xbb\xbf" + files[key].encode()).hex()}
     return files
 
 
